@@ -41,6 +41,7 @@ class _Holes(ast.NodeTransformer):
 # body text with holes -> (types of the holes / free names, constructor template)
 SHAPES = {
     "F1": (["Cst"], ".const {0}"),
+    "H1": (["Cst"], ".const {0}"),
     "_param_value(H1)": (["Par"], ".param {0}"),
     "x[H1]": (["Idx"], ".idx {0}"),
     "np.dot(H1, x[H2])": (["RatList", "Idxs"], ".dotIdx {0} {1}"),
@@ -152,7 +153,7 @@ class BuildCompiler:
             return ("pure", env[f"{s}.op"][0], "UnOpFn")
         self.fail(val, "unsupported right-hand side")
 
-    def lam(self, node: ast.Lambda, env: dict) -> str:
+    def lam_term(self, node: ast.Lambda, env: dict) -> str:
         a = node.args
         names = [x.arg for x in a.args]
         if not names or names[0] != "x" or a.vararg or a.kwarg or a.kwonlyargs or len(a.defaults) != len(names) - 1:
@@ -178,7 +179,10 @@ class BuildCompiler:
             if ty != want:
                 self.fail(node, f"captured value {sname!r} is a {ty}, the closure shape needs a {want}")
             args.append(t)
-        return "pure (" + tmpl.format(*args) + ")"
+        return tmpl.format(*args)
+
+    def lam(self, node: ast.Lambda, env: dict) -> str:
+        return "pure (" + self.lam_term(node, env) + ")"
 
     def block(self, stmts: list[ast.stmt], env: dict, ind: str) -> str:
         stmts = [s for s in stmts if not py2lean.RuleCompiler.skip(s)]
@@ -321,6 +325,225 @@ def gen_build_step(cmp_: ast.AST) -> str:
     return "\n".join(out) + "\n"
 
 
+# ======================================================================================================
+#  `_build_evaluator_iterative`: one iteration of its `while stack:` loop
+# ======================================================================================================
+
+class IterCompiler(BuildCompiler):
+    """statement blocks of the loop body; state = (stack term, result-stack term)"""
+
+    def iblock(self, stmts, env, ind, stk, res):
+        stmts = [s for s in stmts if not py2lean.RuleCompiler.skip(s)]
+        nl = "\n" + ind
+        if not stmts:
+            raise TranslateError(f"{self.where}: a path falls off the end of the loop body")
+        st, rest = stmts[0], stmts[1:]
+        if isinstance(st, ast.Continue):
+            return f".ok ⟨{stk}, {res}⟩"
+        if isinstance(st, ast.Raise):
+            return None
+        if isinstance(st, ast.Expr) and isinstance(st.value, ast.Call):
+            f, args = _u(st.value.func), st.value.args
+            if f == "result_stack.append" and len(args) == 1:
+                a = args[0]
+                if isinstance(a, ast.Lambda):
+                    return self.iblock(rest, env, ind, stk, f"({self.lam_term(a, env)} :: {res})")
+                kind, t, ty = self.rhs(a, env)
+                if kind == "bind" and ty == "Fn":
+                    v = self.new("c")
+                    return f"match {t} with{nl}| .error err => .error err{nl}| .ok {v} =>{nl}  " + self.iblock(rest, env, ind + "  ", stk, f"({v} :: {res})")
+                self.fail(st, "result_stack.append of something that is not a closure")
+            if f == "stack.append" and len(args) == 1 and isinstance(args[0], ast.Tuple) and len(args[0].elts) == 3:
+                e, ph, ch = args[0].elts
+                if _u(ch) != "[]" or not isinstance(ph, ast.Constant) or _u(e) not in env or env[_u(e)][1] != "Expr":
+                    self.fail(st, "stack entry")
+                return self.iblock(rest, env, ind, f"(({env[_u(e)][0]}, {ph.value}) :: {stk})", res)
+            self.fail(st, "unsupported call")
+        if isinstance(st, ast.Assign) and len(st.targets) == 1 and isinstance(st.targets[0], ast.Name):
+            nm, val = st.targets[0].id, st.value
+            if _u(val) == "result_stack.pop()":
+                x, rs = self.new("f"), self.new("rs")
+                e2 = dict(env); e2[nm] = (x, "Fn")
+                return (f"match {res} with{nl}| [] => .error .popEmpty{nl}| {x} :: {rs} =>{nl}  "
+                        + self.iblock(rest, e2, ind + "  ", stk, rs))
+            if _u(val) == "[]" and rest and isinstance(rest[0], ast.For):
+                loop = rest[0]
+                it = _u(loop.iter)
+                if not it.endswith("._expressions") or it[:-len("._expressions")] not in env \
+                        or env[it[:-len("._expressions")]][1] != "ExprList" or loop.orelse:
+                    self.fail(loop, "element loop")
+                key = (nm, _u(loop.target), "\n".join(_u(x) for x in loop.body))
+                self.elem_loops.append((key, loop))
+                v = self.new(nm + "_")
+                e2 = dict(env); e2[nm] = (v, "Fns")
+                t = f"mapRec (elemIterG idx {self.rec_e}) {env[it[:-len('._expressions')]][0]}"
+                return f"match {t} with{nl}| .error err => .error err{nl}| .ok {v} =>{nl}  " + self.iblock(rest[1:], e2, ind + "  ", stk, res)
+            kind, t, ty = self.rhs(val, env)
+            e2 = dict(env)
+            if kind == "pure":
+                e2[nm] = (t, ty)
+                return self.iblock(rest, e2, ind, stk, res)
+            v = self.new(nm + "_")
+            e2[nm] = (v, ty)
+            return f"match {t} with{nl}| .error err => .error err{nl}| .ok {v} =>{nl}  " + self.iblock(rest, e2, ind + "  ", stk, res)
+        if isinstance(st, ast.If):
+            body = st.body if self.iends(st.body) else st.body + rest
+            orelse = st.orelse if (st.orelse and self.iends(st.orelse)) else (st.orelse or []) + rest
+            t = st.test
+            if isinstance(t, ast.Call) and _u(t.func) == "isinstance" and len(t.args) == 2 and _u(t.args[1]) == "VectorVariable":
+                x = _u(t.args[0])
+                if x in env and env[x][1] == "Vec":
+                    w, es = self.new("w"), self.new("es")
+                    e_yes = dict(env); e_yes[x] = (w, "VVar")
+                    e_no = dict(env); e_no[x] = (es, "ExprList")
+                    return (f"match {env[x][0]} with{nl}| .vars {w} =>{nl}    {self.iblock(body, e_yes, ind + '    ', stk, res)}"
+                            f"{nl}| .exprs {es} =>{nl}    {self.iblock(orelse, e_no, ind + '    ', stk, res)}")
+                self.fail(t, "isinstance(…, VectorVariable)")
+            if _u(t) == "phase == 0":
+                return (f"if phase == 0 then{nl}  {self.iblock(body, env, ind + '  ', stk, res)}{nl}else{nl}  "
+                        f"{self.iblock(orelse, env, ind + '  ', stk, res)}")
+            # operator chain
+            chain, cur, tail = [], st, None
+            while isinstance(cur, ast.If):
+                c = cur.test
+                if not (isinstance(c, ast.Compare) and len(c.ops) == 1 and isinstance(c.ops[0], ast.Eq)
+                        and _u(c.left) in env and env[_u(c.left)][1] == "BinOp" and isinstance(c.comparators[0], ast.Constant)):
+                    self.fail(c, "unsupported condition")
+                chain.append((c.comparators[0].value, cur.body, env[_u(c.left)][0]))
+                if len(cur.orelse) == 1 and isinstance(cur.orelse[0], ast.If):
+                    cur = cur.orelse[0]
+                else:
+                    tail = cur.orelse
+                    break
+            if tail and not isinstance(tail[-1], ast.Raise):
+                self.fail(st, "the else branch of the operator chain does not raise")
+            seen = [c[0] for c in chain]
+            if sorted(seen) != sorted(BINOPS):
+                self.fail(st, f"operator chain covers {seen}")
+            arms = [f"| .{BINOPS[o]} => {self.iblock(list(b) + rest, env, ind + '    ', stk, res)}" for o, b, _ in chain]
+            return f"match {chain[0][2]} with{nl}" + nl.join(arms)
+        self.fail(st, "unsupported statement")
+
+    @staticmethod
+    def iends(stmts):
+        if not stmts:
+            return False
+        s = stmts[-1]
+        if isinstance(s, (ast.Continue, ast.Raise)):
+            return True
+        if isinstance(s, ast.If) and s.orelse:
+            return IterCompiler.iends(s.body) and IterCompiler.iends(s.orelse)
+        return False
+
+
+def gen_build_iter_step(cmp_: ast.AST) -> str:
+    where = "_build_evaluator_iterative"
+    fn = py2lean.find_func(cmp_, where)
+    body = [s for s in fn.body if not py2lean.RuleCompiler.skip(s)]
+    loop = next((s for s in body if isinstance(s, ast.While)), None)
+    if loop is None or _u(loop.test) != "stack" or loop.orelse:
+        raise TranslateError(f"{where}: no `while stack:` loop")
+    frame = [" ".join(_u(s).split()) for s in body if s is not loop]
+    frame = [t if not t.startswith("if not result_stack:") else "if not result_stack: raise InvalidExpressionError" for t in frame]
+    lb = [s for s in loop.body if not py2lean.RuleCompiler.skip(s)]
+    if not lb or _u(lb[0]) != "node, phase, children_fns = stack.pop()":
+        raise TranslateError(f"{where}: the loop does not start by popping (node, phase, children_fns)")
+    lb = lb[1:]
+    for n in ast.walk(loop):
+        if isinstance(n, ast.Name) and n.id == "children_fns" and isinstance(n.ctx, ast.Load):
+            raise TranslateError(f"{where}: children_fns is read (the model does not represent it)")
+    known = {k for k, _, _ in CTORS} | set(NON_SCALAR)
+    elem_loops: list = []
+    out = ["/-- one iteration of `while stack:` of `_build_evaluator_iterative` after `(node, phase, _) = stack.pop()`;",
+           "    `recE` = `_build_evaluator`, `recV` = `_build_vector_evaluator` (both used for nodes that are not deeply nested) -/",
+           "def buildIterStepG (idx : String → Option Nat) (recE : Expr → Except CErr Clo) (recV : Vec → Except CErr VClo)",
+           "    (node : Expr) (phase : Nat) (stk : List (Expr × Nat)) (res : List Clo) : Except CErr CSt :=",
+           "  match node with"]
+    for cls, ctor, fields in CTORS:
+        env = {"node": ("node", "Expr")}
+        binders = " ".join(b for _, b, _ in fields)
+        for attr, b, ty in fields:
+            if attr:
+                env[f"node.{attr}"] = (b, ty)
+        if cls == "Variable":
+            env["node"] = (fields[0][1], "Var")
+        if cls == "Parameter":
+            env["node"] = (fields[0][1], "Par")
+        if cls == "MatrixSum":
+            env["node.matrix"] = (fields[0][1], "MVar" if ctor == "matSumV" else "ExprList")
+        whole = f"(.{ctor} {binders})"
+        stmts = []
+        for s in lb:
+            if isinstance(s, ast.If) and not s.orelse:
+                cl = classes_of(s.test, "node")
+                if cl is not None:
+                    for c in cl:
+                        if c not in known:
+                            raise TranslateError(f"{where}: class unknown to the model: {c}")
+                    if cls in cl:
+                        stmts += list(s.body)
+                        if IterCompiler.iends(s.body):
+                            break
+                    continue
+            stmts.append(s)
+        comp = IterCompiler(where, "node", SHAPES, "recE", "recV")
+        comp.elem_loops = elem_loops
+        # `_build_evaluator(node, var_indices)` / stack entries refer to the node itself
+        if cls in ("Variable", "Parameter"):
+            env2 = dict(env)
+        else:
+            env2 = dict(env); env2["node"] = (whole, "Expr")
+        term = comp.iblock(stmts, env2, "      ", "stk", "res")
+        if term is None:
+            raise TranslateError(f"{where}: the {cls} branch raises")
+        out.append(f"  | .{ctor} {binders} =>\n      {term}")
+    # the element loops (must all be the same loop)
+    if not elem_loops:
+        raise TranslateError(f"{where}: no element loop found")
+    keys = {k for k, _ in elem_loops}
+    if len(keys) != 1:
+        raise TranslateError(f"{where}: the element loops differ from one another")
+    (acc, tgt, _), lp = elem_loops[0]
+    if len(lp.body) != 1 or not isinstance(lp.body[0], ast.If):
+        raise TranslateError(f"{where}: element loop body")
+    branches, cur = {}, lp.body[0]
+    while True:
+        cl = classes_of(cur.test, tgt)
+        if cl is None or len(cl) != 1:
+            raise TranslateError(f"{where}: element loop test {_u(cur.test)!r}")
+        branches[cl[0]] = cur.body
+        if len(cur.orelse) == 1 and isinstance(cur.orelse[0], ast.If):
+            cur = cur.orelse[0]
+        else:
+            tail = cur.orelse
+            break
+    if set(branches) != {"Variable", "Constant"} or [_u(x) for x in tail] != [f"{acc}.append(_build_evaluator({tgt}, var_indices))"]:
+        raise TranslateError(f"{where}: element loop branches {sorted(branches)} / tail {[_u(x)[:60] for x in tail]}")
+
+    def elem_branch(stmts, env):
+        comp = BuildCompiler(where + " (element loop)", tgt, SHAPES, "recE", None)
+        *pre, last = stmts
+        if not (isinstance(last, ast.Expr) and isinstance(last.value, ast.Call) and _u(last.value.func) == f"{acc}.append"
+                and isinstance(last.value.args[0], ast.Lambda)):
+            raise TranslateError(f"{where}: element branch does not end in `{acc}.append(lambda …)`")
+        fake = pre + [ast.Return(value=last.value.args[0])]
+        return comp.block(fake, env, "      ")
+    out += ["", "/-- one element of the `elem_fns` loops of the iterative builder -/",
+            "def elemIterG (idx : String → Option Nat) (recE : Expr → Except CErr Clo) : Expr → Except CErr Clo",
+            "  | .var x =>\n      " + elem_branch(branches["Variable"], {tgt: ("x", "Var")}),
+            "  | .const c =>\n      " + elem_branch(branches["Constant"], {f"{tgt}.value": ("c", "Cst")}),
+            "  | e => recE e", ""]
+    # elemIterG must precede buildIterStepG
+    i0 = out.index("/-- one element of the `elem_fns` loops of the iterative builder -/")
+    elem_part = out[i0:]
+    main_part = out[:i0]
+    import json as _json
+    return ("\n".join(elem_part) + "\n" + "\n".join(main_part).rstrip() + "\n\n"
+            "/-- the statements around the loop of `_build_evaluator_iterative` -/\n"
+            "def buildIterFrameG : List String := [" + ", ".join(_json.dumps(t) for t in frame) + "]\n")
+
+
 if __name__ == "__main__":
     import sys
     print(gen_build_step(ast.parse(open(sys.argv[1]).read())))
+    print(gen_build_iter_step(ast.parse(open(sys.argv[1]).read())))
